@@ -473,6 +473,22 @@ def run(tier):
         print("NOTE (no verdict): %d of %d rows on which the statement is silent differ from the documented look-through "
               "of Error.Is (errors without Unwrap but with an Err field)" % (
                   stats["silent_cmp_documented"] - stats["silent_match_documented"], stats["silent_cmp_documented"]))
+    # "an expired response timeout of the retrying client is identifiable as RequestTimeoutError": first transmissions,
+    # deferred first transmissions and retransmissions of every request kind on the real retrying client
+    import retry_family as rf
+    fam = rf.Family(PID)
+    fam.verd = v
+    P, S, U = rf.PUB, rf.SUB, rf.UNSUB
+    rsc = []
+    o2 = {"respTimeoutMs": 40, "connTimeoutMs": 80}
+    for w in ([P(1)], [P(2)], [S(("x", 1))], [U("x")], [P(1), P(2)], [S(("x", 1)), P(1)]):
+        for k in range(2, 6):
+            for o in ("dropReq", "dropAck"):
+                rsc.append(rf.scenario("rt-%d" % len(rsc), w, ["conn"] * len(w), [{"k": k, "o": o}], opts=dict(o2)))
+                rsc.append(rf.scenario("rt-%d" % len(rsc), w, ["conn"] * len(w), [{"k": 2, "o": "cutAfter"}, {"k": k + 2, "o": o}], opts=dict(o2)))
+                rsc.append(rf.scenario("rt-%d" % len(rsc), w, ["conn"] * len(w), [{"k": 2, "o": o}, {"k": 4, "o": o}, {"k": 6, "o": o}], opts=dict(o2)))
+    fam.execute(binary, rsc)
+    evaluations += fam.stats["traces_validated"]
     rc = v.finish()
     distinct_violations = len({(k, w) for k, w, _, _ in v.violations})
     depth, fullbase, maxfails = TIERS[tier]
